@@ -6,14 +6,14 @@ process and validate the records in the parent."""
 class RunRecord:
     """What the drivers need of a finished run (picklable)."""
     FIELDS = ("shape_name", "nodes", "refs", "oa", "start", "memo", "nopop", "conds", "trace", "final", "stuck", "quiescent", "crash",
-              "crash_tb", "externals", "preempted", "killed", "memoized", "threads", "sid", "case_index", "sched", "extra")
+              "crash_tb", "externals", "preempted", "killed", "memoized", "threads", "sid", "case_index", "sched", "extra", "drift")
 
     def __init__(self, **kw):
         for k in self.FIELDS:
             setattr(self, k, kw.get(k))
 
     def ref(self, node):
-        return "stage%d.%s" % (node["stage"], node["node"])
+        return "stage%d.%s" % (node["stage"], node.get("rnode", node["node"]))
 
 
 def to_record(h):
